@@ -350,7 +350,10 @@ def run_tex(key):
             V("inplace_refill", "-", {"exception": type(e).__name__, "msg": str(e)[:200]}, exc=type(e).__name__)
     # the same numbers in Fortran memory order / as a transposed view: same diagnostics
     if q_id and n >= 2:
-        for tag, Al in (("fortran", np.asfortranarray(A0)), ("tview", np.ascontiguousarray(A0.transpose(0, 2, 1)).transpose(0, 2, 1))):
+        lay = [("fortran", np.asfortranarray(A0)), ("tview", np.ascontiguousarray(A0.transpose(0, 2, 1)).transpose(0, 2, 1))]
+        if np.array_equal(A0, np.rint(A0)):
+            lay.append(("int64", np.rint(A0).astype(np.int64)))  # axis-aligned grains typed with integer literals (seed C13i)
+        for tag, Al in lay:
             count("layout_irrelevant")
             try:
                 alt = observe(Al, ba_pairs)
